@@ -130,6 +130,11 @@ impl Report {
             }
         }
 
+        if std::env::var("VERIF_VERBOSE").is_ok() {
+            for v in &unknown {
+                eprintln!("  [all] {}", v.what);
+            }
+        }
         // replay files for unknown violations (at most 5, deduplicated by
         // `what`)
         let mut lines = Vec::new();
